@@ -11,7 +11,7 @@ CONSTANTS
   MaxResults = 5
   KindSet = {"ok", "ne", "nr", "pe", "pp", "em"}
   BuCap = 3
-  FixF34 = FALSE
+  FixF34 = TRUE
   GenHist = TRUE
 INIT Init
 NEXT GenNext
